@@ -4,7 +4,7 @@
 From Coq Require Import List NArith Strings.Byte.
 Import ListNotations.
 Require Import Params AddrFull AddrV4 AddrRoundTrip.
-Require AddrRef.
+Require AddrRef AddrCompose.
 Local Open Scope N_scope.
 
 (* the text the daemon produces is accepted by its own parser, consumed completely, and denotes the same address
@@ -46,3 +46,13 @@ Example d2_d20_witnesses :
   pton (ntop [0x2001; 0; 0; 1; 0; 2; 0; 0]) false false = Res 15 None [0x2001; 0; 0; 1; 0; 2; 0; 0] /\
   pton (ntop [0; 1; 2; 3; 4; 5; 6; 7]) false false = Res 15 None [0; 1; 2; 3; 4; 5; 6; 7].
 Proof. repeat split; try (repeat constructor; reflexivity); vm_compute; reflexivity. Qed.
+
+(* "parsing any accepted plain address and printing it again is idempotent": whatever text the parser accepts, the printed form t'
+   of the result parses again, completely, to the canonical form of the same address, and printing that gives t' once more *)
+Theorem accepted_text_then_print_is_idempotent : forall input usebits trailing n b gs,
+  pton input usebits trailing = Res n b gs ->
+  let t' := ntop gs in
+  pton t' false false = Res (length t') None (canon gs) /\ ntop (canon gs) = t' /\
+  pton (ntop (canon gs)) false false = Res (length t') None (canon gs).
+Proof. exact AddrCompose.accepted_text_print_idem. Qed.
+Print Assumptions accepted_text_then_print_is_idempotent.
